@@ -319,6 +319,27 @@ class C07(F.Check):
                 nest2 = "CommonUnitT<%s, CommonUnitT<%s>>" % (ents[0].cxx, ", ".join(e.cxx for e in ents[1:]))
                 add_closed("c07_nest_%d_b" % li, "are_units_quantity_equivalent(%s{}, %s{})" % (nest2, C), True,
                            dict(key0, nesting="(0,(rest))"), "nested")
+                # two nested common units, each of two (or more) inputs, in both orders - type- and value-level spelling
+                n_ = len(ents)
+                splits = [((0, 1), tuple(range(2, n_)))] if n_ == 3 else [((0, 1), (2, 3)), ((0, 2), (1, 3)), ((0, 3), (1, 2))]
+                if n_ == 3:
+                    splits.append(((0, 1), (1, 2)))
+                    splits.append(((0, 2), (1, 2)))
+                for si, (g1, g2) in enumerate(splits):
+                    for oi, (ga, gb) in enumerate(((g1, g2), (g2, g1))):
+                        if len(ga) < 1 or len(gb) < 1:
+                            continue
+                        ta = "CommonUnitT<%s>" % ", ".join(ents[i].cxx for i in ga)
+                        tb = "CommonUnitT<%s>" % ", ".join(ents[i].cxx for i in gb)
+                        add_closed("c07_nest2_%d_%d_%d" % (li, si, oi), "are_units_quantity_equivalent(CommonUnitT<%s, %s>{}, %s{})" % (ta, tb, C), True,
+                                   dict(key0, nesting="(%s),(%s)" % (ga, gb)), "nested")
+                        va = "common_unit(%s)" % ", ".join("%s{}" % ents[i].cxx for i in ga)
+                        vb = "common_unit(%s)" % ", ".join("%s{}" % ents[i].cxx for i in gb)
+                        add_closed("c07_nest2v_%d_%d_%d" % (li, si, oi), "are_units_quantity_equivalent(common_unit(%s, %s), %s{})" % (va, vb, C), True,
+                                   dict(key0, nesting="value-level (%s),(%s)" % (ga, gb)), "nested")
+                    add_closed("c07_nest2s_%d_%d" % (li, si), "std::is_same<CommonUnitT<CommonUnitT<%s>, CommonUnitT<%s>>, CommonUnitT<CommonUnitT<%s>, CommonUnitT<%s>>>::value" % (
+                        ", ".join(ents[i].cxx for i in g1), ", ".join(ents[i].cxx for i in g2), ", ".join(ents[i].cxx for i in g2), ", ".join(ents[i].cxx for i in g1)),
+                        True, dict(key0, nesting="order of the two nested common units"), "nested")
             else:
                 nest = "CommonUnitT<CommonUnitT<%s, %s>, %s>" % (ents[0].cxx, ents[1].cxx, ents[0].cxx)
                 add_closed("c07_nest_%d_a" % li, "are_units_quantity_equivalent(%s{}, %s{})" % (nest, C), True,
